@@ -3,7 +3,7 @@
  "name": "rsz_adjust_fs_info_4k",
  "props": ["C08", "C20"],
  "level": "U/k",
- "tier": "wip",
+ "tier": "quick",
  "harness": "h_adjust_fs_info",
  "replace": ["free_gdp_blocks", "mark_table_blocks"],
  "includes": ["resize"],
@@ -27,7 +27,7 @@
  "name": "rsz_adjust_fs_info_1k",
  "props": ["C08", "C20"],
  "level": "U/k",
- "tier": "wip",
+ "tier": "quick",
  "harness": "h_adjust_fs_info",
  "replace": ["free_gdp_blocks", "mark_table_blocks"],
  "includes": ["resize"],
